@@ -316,6 +316,14 @@ func round6(w *World, r *Report, prop string) {
 	case "C11":
 		r.Rule("R11.13", "a verdict does not depend on what was compiled before: the map-, slice- and struct-valued fields of compile.Compiler and their writers are the reviewed ones (same analysis as R12.10) — a memo keyed by a name that is not unique (two groupings called g) makes the outcome depend on the order in which modules and scopes are visited", 8)
 		r.guard("R11.13", func() { c12CompilerFields(w, r, "R11.13") })
+	case "C13":
+		r.Rule("R13.13", "a derived type only narrows: getTypes refuses `type` substatements on a type derived from a union typedef (an error exit is taken when a base union is given and member types are listed) — otherwise the listed members replace the inherited ones", 1)
+		r.guard("R13.13", func() { r6DerivedUnionMembers(w, r, "R13.13") })
+	case "C14":
+		r.Rule("R14.12", "the effective feature set is what the last source that knows a feature says: checkers.Status asks every composed checker and carries the latest Enabled/Disabled answer round the loop — it never stops at the first", 1)
+		r.guard("R14.12", func() { r6LastCheckerWins(w, r, "R14.12") })
+		r.Rule("R14.13", "the status rule applies to a typedef however its name is written: in BuildBaseType every path that goes on with the resolved typedef passes assertReferenceStatus, and that call does not hang on a flag (prefixed or bare spelling)", 1)
+		r.guard("R14.13", func() { r6TypedefStatusAlways(w, r, "R14.13") })
 	case "C12":
 		r.Rule("R12.11", "replacing a `uses` does not disturb the expansion that is under way: no method of parse.node stores into node.children an append onto a re-slice of the current list (elements shifted inside the array Children() handed out)", 1)
 		r.guard("R12.11", func() { r6ChildrenNotEditedInPlace(w, r, "R12.11") })
@@ -741,4 +749,172 @@ func r6DeviateAddAll(w *World, r *Report, rule string) {
 		return ""
 	}, func(env map[string]bool) bool { return !env["unknown"] })
 	r.Check(msg == "", rule, "deviate add attaches every property", f.Pos(), "AddChildren(property) iff the property is not an extension statement", "whether a property is added depends on more than its kind ("+msg+"): a must (or unique) whose text is already on the target is dropped although it was written in a module that binds its prefixes differently — it is never compiled")
+}
+
+// r6DerivedUnionMembers (R13.13): a type derived from a union may not list
+// member types of its own.
+func r6DerivedUnionMembers(w *World, r *Report, rule string) {
+	f := w.SSAFunc(w.Method("compile", "Compiler", "getTypes"))
+	cerr := w.SSAFunc(w.Method("compile", "Compiler", "error"))
+	if f == nil || cerr == nil || len(f.Params) < 2 {
+		panic(undecided{"Compiler.getTypes / Compiler.error"})
+	}
+	base := f.Params[1]
+	sym := NewSym(w)
+	sym.Expand = false
+	isLenOfMembers := func(v ssa.Value) bool {
+		c, ok := v.(*ssa.Call)
+		if !ok {
+			return false
+		}
+		bi, ok := c.Call.Value.(*ssa.Builtin)
+		return ok && bi.Name() == "len"
+	}
+	model := func(a *pcAtom) (bool, bool) {
+		if a.op == token.EQL && a.x != nil && a.y != nil {
+			if (a.x == ssa.Value(base) && isNilConst(a.y)) || (a.y == ssa.Value(base) && isNilConst(a.x)) {
+				return false, true // a base union is given
+			}
+		}
+		if bo, ok := a.v.(*ssa.BinOp); ok && a.subj != "" {
+			for _, side := range []ssa.Value{bo.X, bo.Y} {
+				if isLenOfMembers(side) {
+					return a.set.contains(2), true // two member types are listed
+				}
+			}
+		}
+		return false, false
+	}
+	refused := false
+	n := 0
+	for _, b := range f.Blocks {
+		for _, in := range b.Instrs {
+			if c, ok := in.(*ssa.Call); ok && c.Call.StaticCallee() == cerr {
+				n++
+				if hit, decided := pcEvalFree(sym.PathCond(f.Blocks[0], b, nil), model); decided && hit {
+					refused = true
+				}
+			}
+		}
+	}
+	if n == 0 {
+		panic(undecided{"getTypes: no error exit"})
+	}
+	r.Check(refused, rule, "getTypes refuses member types on a derived union", f.Pos(), "base given ∧ member types listed ⇒ error", "a type derived from a union typedef that lists `type` substatements of its own is accepted and the listed members replace the inherited ones: the derived type accepts values its base rejects")
+}
+
+// r6LastCheckerWins (R14.12): the composed feature checker lets the last
+// source that knows a feature decide; the scan is never left early.
+func r6LastCheckerWins(w *World, r *Report, rule string) {
+	f := w.SSAFunc(w.Method("compile", "checkers", "Status"))
+	if f == nil {
+		panic(undecided{"compile.checkers.Status"})
+	}
+	loops := ssaLoops(f)
+	if len(loops) != 1 {
+		panic(undecided{"checkers.Status: one loop over the checkers"})
+	}
+	l := loops[0]
+	body := l.body()
+	early := false
+	for b := range body {
+		if b == l.Header {
+			continue
+		}
+		for _, sc := range b.Succs {
+			if !body[sc] {
+				early = true
+			}
+		}
+	}
+	// what is returned after the loop: a value carried round the loop that an iteration replaces by that checker's answer
+	carried := false
+	for _, b := range f.Blocks {
+		ret, ok := b.Instrs[len(b.Instrs)-1].(*ssa.Return)
+		if !ok || len(ret.Results) != 1 || body[b] {
+			continue
+		}
+		phi, ok := ret.Results[0].(*ssa.Phi)
+		if !ok || phi.Block() != l.Header {
+			continue
+		}
+		seen := map[ssa.Value]bool{}
+		var look func(v ssa.Value)
+		look = func(v ssa.Value) {
+			if seen[v] {
+				return
+			}
+			seen[v] = true
+			switch x := v.(type) {
+			case *ssa.Phi:
+				for _, e := range x.Edges {
+					look(e)
+				}
+			case *ssa.Call:
+				if x.Call.IsInvoke() && nm(x.Call.Method) == "Status" && body[x.Block()] {
+					carried = true
+				}
+			}
+		}
+		look(phi)
+	}
+	r.Check(!early && carried, rule, "checkers.Status lets the last source decide", f.Pos(), "every checker is asked; a later Enabled/Disabled replaces an earlier one", "the scan over the feature sources is left at the first one that knows the feature (or the answer is not carried round the loop): a feature that the capabilities enable and the configuration disables stays enabled, and the nodes under it are present against the effective feature set")
+}
+
+// r6TypedefStatusAlways (R14.13): BuildBaseType applies the reference-status
+// rule to every typedef it resolves, however the name was written.
+func r6TypedefStatusAlways(w *World, r *Report, rule string) {
+	f := w.SSAFunc(w.Method("compile", "Compiler", "BuildBaseType"))
+	ars := w.SSAFunc(w.Method("compile", "Compiler", "assertReferenceStatus"))
+	if f == nil || ars == nil {
+		panic(undecided{"Compiler.BuildBaseType / assertReferenceStatus"})
+	}
+	var call *ssa.Call
+	for _, b := range f.Blocks {
+		for _, in := range b.Instrs {
+			if c, ok := in.(*ssa.Call); ok && c.Call.StaticCallee() == ars && len(c.Call.Args) == 4 {
+				call = c
+			}
+		}
+	}
+	if call == nil {
+		r.Fail(rule, "BuildBaseType applies the status rule to the typedef", f.Pos(), "assertReferenceStatus is no longer called for the typedef a type refers to")
+		return
+	}
+	dst := call.Call.Args[2]
+	why := ""
+	for _, ref := range *dst.Referrers() {
+		switch x := ref.(type) {
+		case *ssa.BinOp, *ssa.Phi, *ssa.DebugRef:
+			continue
+		case *ssa.Call:
+			if x == call {
+				continue
+			}
+		case *ssa.TypeAssert, *ssa.ChangeInterface, *ssa.MakeInterface:
+			// conversions: their own uses are looked at below through the block test
+		}
+		if rb := ref.Block(); rb != call.Block() && !call.Block().Dominates(rb) && !rb.Dominates(call.Block()) {
+			why = "the typedef is used (`" + ref.String() + "`) on a path that does not pass the status check"
+		}
+	}
+	// and the check itself depends on nothing but the typedef having been found
+	sym := NewSym(w)
+	sym.Expand = false
+	for _, a := range sym.PathCond(f.Blocks[0], call.Block(), nil).atoms() {
+		if phi, ok := a.v.(*ssa.Phi); ok {
+			if bt, isB := phi.Type().Underlying().(*types.Basic); isB && bt.Kind() == types.Bool {
+				allConst := true
+				for _, e := range phi.Edges {
+					if _, isK := e.(*ssa.Const); !isK {
+						allConst = false
+					}
+				}
+				if allConst && phi.Comment != "ok" {
+					why = "the status check runs only when the flag `" + phi.Comment + "` is set"
+				}
+			}
+		}
+	}
+	r.Check(why == "", rule, "BuildBaseType applies the status rule to every typedef it resolves", call.Pos(), "assertReferenceStatus(type, typedef) on every path that goes on with the typedef", why+": `type own-prefix:old-t` (the module's own prefix) refers to a deprecated or obsolete typedef of the same module without complaint")
 }
